@@ -68,6 +68,9 @@ struct AnyExplorer
   int depth = 0;
   long long resume = -1;
   std::vector<Op> hist;
+  std::set<unsigned> sampled;
+  bool stop = false;
+  long long since_poll = 0;
   int root_only = -1;
   const std::vector<std::pair<std::vector<Op>, long long>> *pre = nullptr;
   char *okflags = nullptr;
@@ -85,15 +88,19 @@ struct AnyExplorer
     std::string replay = hist_text("any", hist);
     vr::begin_case(idx, "Any|" + any_op_class(before, last), replay);
     Result r = R.run(hist, false);
-    vr::stat("states");
-    vr::stat("traces");
-    vr::stat("transitions", r.ops);
-    vr::stat(std::string("histories_len") + std::to_string(hist.size()));
-    vr::outcome(vr::fnv(last.kind, 2, r.digest));
-    vr::sample(replay + (r.failed ? "  -> VIOLATION" : "  -> as the model"), std::string("any") + last.kind);
-    if (r.failed) {
-      vr::stat("violating_histories");
-      report(r.sig, replay, r.detail + " [history " + replay + "]");
+    if (true) {
+      Counters &c = counters();
+      c.states++;
+      c.transitions += r.ops;
+      c.len[hist.size() < 8 ? hist.size() : 7]++;
+      vr::outcome(vr::fnv(last.kind, 2, r.digest));
+      unsigned key = (unsigned)(last.kind[0] * 256 + last.kind[1]) * 2 + (r.failed ? 1 : 0);
+      if (sampled.insert(key).second)
+        vr::sample(replay + (r.failed ? "  -> VIOLATION" : "  -> as the model"), std::string("any") + last.kind + (r.failed ? "!" : ""));
+      if (r.failed) {
+        c.violating++;
+        report(r.sig, replay, r.detail + " [history " + replay + "]");
+      }
     }
     return !r.failed;
   }
@@ -111,6 +118,16 @@ struct AnyExplorer
         continue;
       if (resume >= idx + w)
         continue;
+      if (stop)
+        return;
+      if (++since_poll >= 2048) {
+        since_poll = 0;
+        if (vr::deadline_passed()) {
+          stop = true;
+          vr::capped(std::string("any") + ": deadline passed inside a shard, remaining histories of the shard not explored");
+          return;
+        }
+      }
       hist.push_back(ops[c]);
       bool ok = resume >= idx ? resume != idx : exec_case(idx, m);
       if (ok && !any_observer(ops[c]) && okflags && level + 1 == depth)
@@ -155,8 +172,8 @@ static void explore(int depth, int ls)
   }
   char *okflags = (char *)mmap(nullptr, pre.size() + 1, PROT_READ | PROT_WRITE, MAP_SHARED | MAP_ANONYMOUS, -1, 0);
   memset(okflags, 0, pre.size() + 1);
-  vr::run_sharded((int)first.size(), [&](int shard, long long resume_after) {
-    partial_enter(shard);
+  run_sharded_2level((int)first.size(), [&](int shard, long long resume_after) {
+    partial_enter(shard, resume_after);
     AnyExplorer e;
     e.resume = resume_after;
     e.depth = ls;
@@ -164,6 +181,7 @@ static void explore(int depth, int ls)
     e.pre = &pre;
     e.okflags = okflags;
     e.dfs(AModel(), 0, 0);
+    counters_flush();
   });
   std::vector<int> sound;
   for (size_t i = 0; i < pre.size(); i++)
@@ -172,8 +190,8 @@ static void explore(int depth, int ls)
   vr::stat("shards", (long long)(first.size() + sound.size()));
   vr::stat("prefixes_sound", (long long)sound.size());
   vr::stat("prefixes_pruned", (long long)(pre.size() - sound.size()));
-  vr::run_sharded((int)sound.size(), [&](int shard, long long resume_after) {
-    partial_enter(1000 + shard);
+  run_sharded_2level((int)sound.size(), [&](int shard, long long resume_after) {
+    partial_enter(1000 + shard, resume_after);
     if (vr::deadline_passed()) {
       vr::capped("any: deadline passed before prefix shard " + std::to_string(shard));
       return;
@@ -186,6 +204,7 @@ static void explore(int depth, int ls)
     for (auto &o : e.hist)
       any_model_apply(m, o);
     e.dfs(m, ls, pre[sound[shard]].second);
+    counters_flush();
   });
 }
 
